@@ -109,6 +109,16 @@ func (e *Engine) trackWrite(key string, ref string) {
 		} else {
 			t.keys[key] = fresh
 		}
+		if !fresh {
+			if ref == "" {
+				t.anyRef[key] = true
+			} else {
+				if t.refs[key] == nil {
+					t.refs[key] = map[string]bool{}
+				}
+				t.refs[key][ref] = true
+			}
+		}
 	}
 }
 
@@ -118,10 +128,13 @@ type track struct {
 	allocs map[*ssa.Alloc]bool
 	locks  map[string]bool
 	blocking bool
+	refs   map[string]map[string]bool // key -> object references written (non-fresh objects)
+	anyRef map[string]bool            // key -> written through an unknown reference (whole array may change)
+	seq0   int                        // number of SMT declarations when the tracker started
 }
 
 func (e *Engine) pushTrack() *track {
-	t := &track{start: e.nalloc, keys: map[string]bool{}, allocs: map[*ssa.Alloc]bool{}, locks: map[string]bool{}}
+	t := &track{start: e.nalloc, keys: map[string]bool{}, allocs: map[*ssa.Alloc]bool{}, locks: map[string]bool{}, refs: map[string]map[string]bool{}, anyRef: map[string]bool{}, seq0: len(e.c.order)}
 	e.tracks = append(e.tracks, t)
 	return t
 }
@@ -791,4 +804,45 @@ func (e *Engine) keyMine() string {
 		e.regHeap(k, arrSort(SInt, SBool), "mine", "X", nil)
 	}
 	return k
+}
+
+// stableTerm reports whether term only depends on symbols declared before seq0 (so it denotes the same value in
+// the state before a loop/discovery run started).
+func (e *Engine) stableTerm(term string, seq0 int) bool {
+	seen := map[string]bool{}
+	var stack []string
+	stack = append(stack, e.c.depsOf(term)...)
+	for len(stack) > 0 {
+		n := stack[len(stack)-1]
+		stack = stack[:len(stack)-1]
+		if seen[n] {
+			continue
+		}
+		seen[n] = true
+		d := e.c.decls[n]
+		if d == nil {
+			continue
+		}
+		if d.seq >= seq0 && d.body == "" && !strings.HasPrefix(d.name, "sort:") {
+			return false // declared (havocked / fresh) during the run: not a pre-state value
+		}
+		stack = append(stack, d.deps...)
+	}
+	return true
+}
+
+// heapHavocRows havocs only the rows (objects) refs of an array-sorted heap key.
+func (e *Engine) heapHavocRows(st *State, key string, refs []string) bool {
+	hi := e.heapInfo[key]
+	if !strings.HasPrefix(hi.sort, "(Array Int ") {
+		return false
+	}
+	row := strings.TrimSuffix(strings.TrimPrefix(hi.sort, "(Array Int "), ")")
+	cur := e.heapGet(st, key)
+	for _, r := range refs {
+		cur = store(cur, r, e.c.fresh(hi.base+"_row", row))
+	}
+	e.heapSet(st, key, cur)
+	e.trackWrite(key, "")
+	return true
 }
